@@ -237,3 +237,83 @@ def interleaved_ok(f, arg_tuples, fb_list=()):
                     bad.append((a, nm, k))
                     break
     return bad, n
+
+
+AMBIENT_FRAMES = [
+    "8D40621D58C382D690C8AC2863A7", "8D40621D58C386435CC412692AD6",      # airborne position, even / odd
+    "8C4841753AAB238733C8CD4020B1", "8C4841753A8A35323FAEBDAC702D",      # surface position
+    "8D485020994409940838175B284F", "8DA05F219B06B6AF189400CBC33F",      # velocity sub-types 1 and 3
+    "8D4840D6202CC371C32CE0576098",                                      # identification
+    "8D40058B58C901375147EFD09357",                                      # another airborne position
+    "8DA2C1BD587BA2ADB31799CB802B",
+    "A000083E202CC371C31DE0AA1CCF", "A0001838201584F23468207CDFA5",      # Comm-B 2,0
+    "A0001839CA3800315800007448D9", "A000029C85E42F313000007047D3",      # Comm-B 4,0 / 5,0
+    "A00004128F39F91A7E27C46ADC21", "A8001EBCFFFB23286004A73F6A5B",      # Comm-B 6,0 / 4,0
+    "A0001838300000000000007ADA4A",
+    "28001A1B1B2C4F", "2A00516D492B80", "5D484FDEA248F5", "02E197B00179C3",
+]
+
+
+def ambient(pms):
+    """a fixed 'earlier life' of the process: every public callable of the decoder modules is called on a small set of
+    frames (each with the argument shape its signature asks for); results and exceptions are ignored.  A check that has
+    an absolute oracle repeats its alphabet after this, so an answer that is only right in a process that never called
+    a DIFFERENT decoder before (shared module-level tables mutated by another function, lazily built caches) is seen."""
+    import inspect
+    mods = []
+    for name in ("adsb", "commb", "common", "allcall", "surv", "bds"):
+        m = getattr(pms, name, None) or getattr(getattr(pms, "decoder", None), name, None)
+        if m is not None:
+            mods.append(m)
+    bds = getattr(getattr(pms, "decoder", None), "bds", None)
+    if bds is not None:
+        for n in sorted(dir(bds)):
+            sub = getattr(bds, n)
+            if inspect.ismodule(sub) and getattr(sub, "__name__", "").startswith(bds.__name__ + "."):
+                mods.append(sub)
+    n = 0
+    seen = set()
+    for m in mods:
+        for fname in sorted(dir(m)):
+            f = getattr(m, fname)
+            if fname.startswith("_") or not inspect.isfunction(f) and not inspect.isbuiltin(f) or id(f) in seen:
+                continue
+            seen.add(id(f))
+            try:
+                params = [p for p in inspect.signature(f).parameters.values()
+                          if p.kind in (p.POSITIONAL_ONLY, p.POSITIONAL_OR_KEYWORD)]
+            except (TypeError, ValueError):
+                continue
+            names = [p.name for p in params]
+            if not names or not names[0].startswith("msg"):
+                continue
+            for i, fr in enumerate(AMBIENT_FRAMES):
+                other = AMBIENT_FRAMES[i ^ 1]
+                args = []
+                for nm in names:
+                    if nm in ("msg", "msg0"):
+                        args.append(fr)
+                    elif nm == "msg1":
+                        args.append(other)
+                    elif nm in ("t0", "t1"):
+                        args.append(1000 + (nm == "t1"))
+                    elif "lat" in nm:
+                        args.append(52.3)
+                    elif "lon" in nm:
+                        args.append(4.7)
+                    else:
+                        break
+                else:
+                    try:
+                        f(*args)
+                    except Exception:  # noqa: BLE001
+                        pass
+                    n += 1
+                    continue
+                # remaining parameters have defaults? call with what we have
+                try:
+                    f(*args)
+                except Exception:  # noqa: BLE001
+                    pass
+                n += 1
+    return n
